@@ -54,8 +54,14 @@ inductive Ev where
   | deliver (m p o : Nat)
   /-- an OffsetCommit entry `(p, c)` sent by `m` reached the coordinator; `ok` = stored -/
   | commit (m p c : Nat) (ok : Bool)
-  /-- `m` was killed (no leave, no commit) or stopped: informational -/
+  /-- `m` was killed (no leave, no commit) or stopped -/
   | gone (m : Nat)
+  /-- a LeaveGroup reply was delivered to the live member `m` (it left the group on its own: the
+      application did not poll for `max_poll_interval_ms`) -/
+  | leaveR (m : Nat)
+  /-- the coordinator expired the session of `m` (under the member id `m` currently uses, with an
+      undisturbed heartbeat channel: no fault aimed at `m`, no coordinator failover) -/
+  | expire (m : Nat)
 deriving DecidableEq, Repr, Inhabited
 
 def topicOf (p : Nat) : Nat := p / 64
